@@ -172,7 +172,10 @@ class C07(core.Check):
         "re-oriented (random call sequences of length 0-3) before the loft is made; neighbouring cells define the shared "
         "edges again. Thorough additionally enumerates every kind x 12 positions x {given, inverted, shifted, re-oriented} "
         "and every kind x 12 x 12 duplicate definition by two neighbours. face cases: four direction-dependent data on one "
-        "face under random call sequences. Non-trivial = at least one curved datum; distinct = different case."
+        "face under random call sequences. About a third of the asm cases are assembled again (Mesh.backport() and/or "
+        "Mesh.clear() + assemble(), one or two rounds) and observed after every round. revolve cases: a quadrilateral in a half "
+        "plane through the axis revolved by +-0.5..3.5 rad (face as given / inverted, some re-assembled), oracle only. Angle data "
+        "carry both signs on every position. Non-trivial = at least one curved datum; distinct = different case."
     )
     assumptions = [
         "each EdgeData object sits at one position only (an object shared by several edges would be reversed once per position)",
@@ -326,7 +329,10 @@ class C07(core.Check):
                 bops, tops = [], []
             op, tag = self._mk_op(rng, locs, corners, slots, tag, bops, tops)
             ops.append(op)
-        return {"kind": "asm", "locs": [frs(l) for l in locs], "ops": ops}
+        case = {"kind": "asm", "locs": [frs(l) for l in locs], "ops": ops}
+        if rng.random() < 0.35:  # the mesh is assembled again: Mesh.backport() or Mesh.clear() + assemble()
+            case["history"] = rng.choice([["backport"], ["clear"], ["backport", "clear"], ["clear", "backport"]])
+        return case
 
     def _face_case(self, rng: random.Random) -> dict:
         locs = self._lattice(rng)
@@ -336,6 +342,31 @@ class C07(core.Check):
             kind = rng.choice(["angle", "spline", "polyLine", "arc", "project"])
             edges.append(self._datum(rng, kind, i + 1, locs, pts[i], pts[(i + 1) % 4]))
         return {"kind": "face", "locs": [frs(l) for l in locs], "face": {"pts": pts, "edges": edges, "fops": self._fops(rng, pts, rng.randint(1, 5))}}
+
+    def _revolve_case(self, rng: random.Random, angle: Optional[Fr] = None) -> dict:
+        """a quadrilateral in a half plane through the axis, revolved by a positive or negative angle"""
+        axis = rng.choice([[0, 0, 1], [0, 1, 0], [1, 0, 0], [2, 3, 6], [-1, 4, 8]])
+        u = vcross(axis, [1, 2, 3] if axis != [1, 0, 0] else [0, 1, 2])
+        origin = [Fr(rng.randint(-8, 8), 8) for _ in range(3)]
+        na, nu = vnorm(axis), vnorm(u)
+        r0, r1 = Fr(rng.randint(8, 12), 8), Fr(rng.randint(16, 20), 8)
+        z0, z1 = Fr(rng.randint(-2, 2), 8), Fr(rng.randint(6, 10), 8)
+        pts = []
+        for r, z in ((r0, z0), (r1, z0 + Fr(rng.randint(-1, 1), 8)), (r1, z1), (r0 + Fr(rng.randint(-1, 1), 8), z1)):
+            pts.append([float(origin[i]) + float(r) * u[i] / nu + float(z) * axis[i] / na for i in range(3)])
+        if angle is None:
+            angle = Fr(rng.choice([-1, 1]) * rng.choice([1, 2, 3, 4, 5, 7]), 2)
+        case = {
+            "kind": "revolve",
+            "pts": [frs(p) for p in pts],
+            "angle": str(angle),
+            "axis": [str(a) for a in axis],
+            "origin": frs(origin),
+            "invert": rng.random() < 0.5,
+        }
+        if rng.random() < 0.3:
+            case["history"] = rng.choice([["backport"], ["clear"]])
+        return case
 
     def _exhaustive(self, rng: random.Random) -> List[dict]:
         out = []
@@ -356,7 +387,10 @@ class C07(core.Check):
                         return [["reorient", pts[2]]]
 
                     op, _ = self._mk_op(rng, locs, corners, {s: kind}, 0, calls(corners[:4]), calls(corners[4:]), collinear_p=0.0)
-                    out.append({"kind": "asm", "locs": [frs(l) for l in locs], "ops": [op], "note": f"{kind}@{s}:{use}"})
+                    case = {"kind": "asm", "locs": [frs(l) for l in locs], "ops": [op], "note": f"{kind}@{s}:{use}"}
+                    if use in ("given", "invert"):
+                        case["history"] = ["backport"] if use == "given" else ["clear"]
+                    out.append(case)
         # duplicate definitions: two cells sharing a face, every slot pair
         for kind in ("spline", "angle", "arc", "polyLine"):
             for s1 in range(12):
@@ -374,6 +408,15 @@ class C07(core.Check):
         n = 200 if tier == "quick" else 2400
         cases = [self._asm_case(rng) for _ in range(n)]
         cases += [self._face_case(rng) for _ in range(n // 4)]
+        cases += [self._revolve_case(rng) for _ in range(n // 8)]
+        # angle arcs of either sign on every position, as given and on an inverted face, once assembled again
+        for sgn in (-1, 1):
+            for s_, use in ((0, []), (3, []), (5, [["invert"]]), (7, []), (10, [["invert"]])):
+                locs = self._lattice(rng)
+                op, _ = self._mk_op(rng, locs, self._cell(0, 0, 0), {s_: "angle"}, 0, list(use), list(use), collinear_p=0.0)
+                d = (op["bottom"]["edges"] + op["top"]["edges"] + op["side"])[s_]
+                d["angle"] = str(sgn * abs(Fr(d["angle"])))
+                cases.append({"kind": "asm", "locs": [frs(l) for l in locs], "ops": [op], "history": ["backport"], "note": f"angle sign {sgn} @{s_}"})
         # ill-formed stream: both sides must refuse (the model answers `bad-op`, never a default)
         cases += [{"kind": "reject", "what": w} for w in ("face3", "edges5", "side5", "project3", "location")]
         if tier == "quick":
@@ -464,6 +507,34 @@ class C07(core.Check):
             except Exception as e:
                 return {"reject": type(e).__name__}
             return {"accepted": True}
+        if case["kind"] == "revolve":
+            face = cb.Face([fl(unfrs(p)) for p in case["pts"]])
+            if case["invert"]:
+                face.invert()
+            op = cb.Revolve(face, float(Fr(case["angle"])), fl(unfrs(case["axis"])), fl(unfrs(case["origin"])))
+            mesh = cb.Mesh()
+            mesh.add(op)
+            mesh.assemble()
+            stages = []
+
+            def look():
+                stages.append(
+                    {
+                        "P": [[float(x) for x in v.position] for v in mesh.vertex_list.vertices],
+                        "B": [[v.index for v in b.vertices] for b in mesh.block_list.blocks],
+                        "text": mesh.edge_list.description,
+                    }
+                )
+
+            look()
+            for step in case.get("history", []):
+                if step == "backport":
+                    mesh.backport()
+                else:
+                    mesh.clear()
+                    mesh.assemble()
+                look()
+            return {"stages": stages}
         if case["kind"] == "face":
             f = case["face"]
             face = cb.Face([pos[l] for l in f["pts"]], [self._make(cb, d, objs) for d in f["edges"]])
@@ -491,6 +562,25 @@ class C07(core.Check):
                     loft.add_side_edge(i, self._make(cb, d, objs))
             mesh.add(loft)
         mesh.assemble()
+
+        def observe() -> dict:
+            return self._observe(mesh, objs, loc_of, payload, side_ends)
+
+        first = observe()
+        later = []
+        for step in case.get("history", []):
+            if step == "backport":
+                mesh.backport()
+            else:  # "clear": undo the assembly and assemble again
+                mesh.clear()
+                mesh.assemble()
+            later.append(observe())
+        if later:
+            first["later"] = later
+        return first
+
+    @staticmethod
+    def _observe(mesh, objs, loc_of, payload, side_ends) -> dict:
         listed = {id(e): n for n, e in enumerate(mesh.edge_list.edges)}
         E = []
         for e in mesh.edge_list.edges:
@@ -579,6 +669,8 @@ class C07(core.Check):
         return ".".join(map(str, f["pts"])) + "@" + ";".join(self._datum_req(d, locs) for d in f["edges"]) + "@" + "+".join(ops)
 
     def requests(self, case: dict, impl: Any) -> List[str]:
+        if case["kind"] == "revolve":
+            return []  # oracle only: the operation is a Loft with four Angle side edges (covered by the asm cases)
         if case["kind"] == "reject":
             ltab = "0/1,0/1,0/1;1/1,0/1,0/1;1/1,1/1,0/1;0/1,1/1,0/1"
             ln = "line~0~-~0/1~-"
@@ -605,7 +697,8 @@ class C07(core.Check):
                 + "!"
                 + ";".join(self._datum_req(d, locs) for d in op["side"])
             )
-        return [f"c07.asm {ltab} " + "|".join(ops)]
+        hist = case.get("history", [])
+        return [f"c07.asm {ltab} " + "|".join(ops) + (f" {len(hist)}" if hist else "")]
 
     def compare(self, case: dict, impl: Any, model: List[str]) -> Optional[str]:
         ans = model[0]
@@ -624,6 +717,14 @@ class C07(core.Check):
         m = re.fullmatch(r"V\[(.*)\] B\[(.*)\] E\[(.*)\] W\[(.*)\]", ans)
         if not m:
             return "unparsable model answer " + ans[:200]
+        for n, stage in enumerate([impl] + impl.get("later", [])):
+            why = self._compare_stage(m, stage)
+            if why:
+                return why if n == 0 else f"after {case['history'][:n]}: {why}"
+        return None
+
+    @staticmethod
+    def _compare_stage(m, impl: Any) -> Optional[str]:
         v = [int(x) for x in m.group(1).split(",") if x]
         if v != impl["V"]:
             return f"vertex locations: implementation {impl['V']}, model {v}"
@@ -705,6 +806,15 @@ class C07(core.Check):
             return []  # which inputs must be refused is C20's subject
         if case["kind"] == "face":
             return self._oracle_face(case, impl)
+        if case["kind"] == "revolve":
+            return self._oracle_revolve(case, impl)
+        found = self._oracle_stage(case, impl)
+        for n, stage in enumerate(impl.get("later", [])):
+            for v in self._oracle_stage(case, stage):
+                found.append(dict(v, site=v["site"] + ":after-reassembly", what=f"after {case['history'][: n + 1]}: {v['what']}"))
+        return found
+
+    def _oracle_stage(self, case: dict, impl: Any) -> List[dict]:
         out: List[dict] = []
         locs = case["locs"]
         pos = [fl(unfrs(l)) for l in locs]
@@ -788,7 +898,9 @@ class C07(core.Check):
                 problems.append((x, p))
             else:
                 x, p = next((q for q in problems if q[1][0] == "direction"), problems[0])
-                viol(f"edge-direction:{x['cls']}:{x['d']['k']}" if p[0] == "direction" else f"edge-data:{x['cls']}:{x['d']['k']}", p[1], w, x["d"])
+                head = {"direction": "edge-direction", "side": "arc-wrong-side-of-chord"}.get(p[0], "edge-data")
+                sign = ":negative" if x["d"]["k"] == "angle" and Fr(x["d"]["angle"]) < 0 else ""
+                viol(f"{head}:{x['cls']}:{x['d']['k']}{sign}", p[1], w, x["d"])
         for pair, (w, e) in entry_of.items():
             if pair not in by_pair:
                 viol("EdgeList.add:entry-without-datum", f"entry {w['kind']} {w['v1']} {w['v2']} was not described by the user")
@@ -812,8 +924,9 @@ class C07(core.Check):
                     wedge = len(set(impl["B"][n])) < 8
                     if wire["length"] is not None and (first > n or (first == n and wedge)) and abs(wire["length"] - chord) <= 1e-9 * max(1.0, chord) and not wire["listed"]:
                         # the wire was made before anything defined this edge (an earlier block, or the coincident
-                        # wire of a collapsed block that comes first in the enumeration): it keeps a straight line
-                        site = "Wire.edge:defined-later"
+                        # wire of a collapsed block that comes first in the enumeration) and was left with its straight
+                        # line (repaired in Mesh.assemble; the former known finding Wire.edge:defined-later)
+                        site = "Wire.edge:stale-line-after-later-definition"
                 else:
                     exp, tol, site = chord, 1e-9, "Edge.length:straight"
                 if wire["length"] is None or not abs(wire["length"] - exp) <= tol * max(1.0, exp):
@@ -871,8 +984,67 @@ class C07(core.Check):
             # the mirror image of the mid point about the chord = the arc bulging to the other side
             mid = vmul(0.5, vadd(fl(A), fl(B)))
             other = vsub(vmul(2.0, mid), M)
-            return ("direction" if close(triples[0], other, 1e-6) and k == "angle" else "data", f"arc {w['v1']} {w['v2']} passes through {triples[0]}, the described arc through {M}")
+            if close(triples[0], other, 1e-6) and k == "angle":
+                return ("side", f"arc {w['v1']} {w['v2']} passes through {triples[0]}: the mirror image, about the chord, of the described arc's point {M}")
+            side = vdot(vsub(triples[0], mid), vsub(M, mid))
+            return ("side" if side < 0 else "data", f"arc {w['v1']} {w['v2']} passes through {triples[0]}, the described arc through {M}" + (" (other side of the chord)" if side < 0 else ""))
         return None
+
+    def _oracle_revolve(self, case: dict, impl: Any) -> List[dict]:
+        """the four side edges of a Revolve: `arc a b` must turn from vertex a to vertex b by the written
+        angle about the axis, and its third point is vertex a turned by half of that angle — in particular
+        it lies on the far side of the chord as seen from the axis"""
+        out: List[dict] = []
+        axis = fl(unfrs(case["axis"]))
+        na = vnorm(axis)
+        axis = [x / na for x in axis]
+        origin = fl(unfrs(case["origin"]))
+        theta = float(Fr(case["angle"]))
+        sign = "negative" if theta < 0 else "positive"
+        for n, st in enumerate(impl["stages"]):
+            tail = ":after-reassembly" if n else ""
+            P = st["P"]
+            entries = []
+            comment = None
+            for line in st["text"].splitlines()[2:]:
+                line = line.strip()
+                if line.startswith("//"):
+                    comment = line
+                    continue
+                m = re.fullmatch(r"arc (\d+) (\d+) \((.*)\)", line)
+                if m:
+                    entries.append((int(m.group(1)), int(m.group(2)), [float(t) for t in m.group(3).split()], comment))
+                    comment = None
+            sides = {frozenset((b[i], b[i + 4])) for b in st["B"] for i in range(4)}
+            got = {frozenset((a, b)) for a, b, _, _ in entries}
+            if len(entries) != len(got):
+                out.append({"site": "EdgeList.add:duplicate-entry" + tail, "what": st["text"]})
+            if got != sides:
+                out.append({"site": "Revolve:side-arc-missing" + tail, "what": f"arcs on {sorted(map(sorted, got))}, side edges {sorted(map(sorted, sides))}", "observed": st["text"]})
+                continue
+            for a, b, M, comment in entries:
+                cm = re.fullmatch(r"// arc (\d+) (\d+) (\S+) \((.*)\)", comment or "")
+                if not cm or (int(cm.group(1)), int(cm.group(2))) != (a, b):
+                    out.append({"site": "AngleEdge.description:comment" + tail, "what": f"comment {comment!r} for arc {a} {b}"})
+                    continue
+                th = float(cm.group(3))
+                ra, rb = vsub(P[a], origin), vsub(P[b], origin)
+                if abs(abs(th) - abs(theta)) > 1e-9 or vnorm(vsub(rot(ra, axis, th), rb)) > 1e-6:
+                    out.append({"site": f"Revolve:arc-sense:{sign}" + tail, "what": f"arc {a} {b} is written with angle {th} but turning vertex {a} by it about the axis does not give vertex {b} (revolved by {theta})"})
+                    continue
+                want = vadd(origin, rot(ra, axis, th / 2))
+                if vnorm(vsub(M, want)) > 1e-6:
+                    mid = vmul(0.5, vadd(P[a], P[b]))
+                    wrong_side = vdot(vsub(M, mid), vsub(want, mid)) < 0
+                    out.append(
+                        {
+                            "site": (f"AngleEdge.third_point:wrong-side-of-chord:{sign}" if wrong_side else f"AngleEdge.third_point:off-the-arc:{sign}") + tail,
+                            "what": f"arc {a} {b} (angle {th}) passes through {M}, vertex {a} turned by half the angle is {want}",
+                            "observed": M,
+                            "expected": want,
+                        }
+                    )
+        return out
 
     def _oracle_face(self, case: dict, impl: Any) -> List[dict]:
         """a face call keeps every datum between the same two points and describing the same curve"""
@@ -914,11 +1086,13 @@ class C07(core.Check):
     def classify(self, case, impl):
         if case["kind"] == "reject":
             return "ill-formed:" + (impl.get("reject", "accepted") if isinstance(impl, dict) else "?")
+        if case["kind"] == "revolve":
+            return "revolve:" + ("negative" if Fr(case["angle"]) < 0 else "positive") + (":inverted" if case["invert"] else "") + (":reassembled" if case.get("history") else "")
         if case["kind"] == "face":
             return "face:" + "+".join(sorted({o[0] for o in case["face"]["fops"]}))
         uses = sorted({{"inverted-face": "inverted", "shifted-face": "shifted"}.get(x["cls"], "given") for x in self._described(case)})
         wedge = any(len(set(op["bottom"]["pts"])) < 4 for op in case["ops"])
-        return f"asm:{len(case['ops'])}op:" + ("+".join(uses) or "no-data") + (":wedge" if wedge else "")
+        return f"asm:{len(case['ops'])}op:" + ("+".join(uses) or "no-data") + (":wedge" if wedge else "") + (":reassembled" if case.get("history") else "")
 
     def static_checks(self) -> List[str]:
         """the direction table the model computes from the generated tables, against the convention"""
